@@ -1,10 +1,17 @@
 #!/bin/sh
 # MANIFEST.setup_cmd: build the Lean project (models, lemmas, property theorems, drivers) and the
-# Rust harness against /repo, offline, from files on disk only.
+# Rust harness against /repo for every claimed property (claimed.txt), offline, from files on disk.
 set -e
 cd "$(dirname "$0")"
 export CARGO_NET_OFFLINE=true
 [ -f harness/Cargo.lock ] || cp /repo/Cargo.lock harness/Cargo.lock
-(cd lean && lake build BarterModel $(grep -o 'name = "drv_c[0-9]*"' lakefile.toml | sed 's/name = "\(.*\)"/\1/' | while read d; do n=$(echo $d | sed 's/drv_c//'); [ -f BarterModel/Driver/C$n.lean ] && echo $d; done))
-(cd harness && cargo build --offline --bins)
+LEAN_TARGETS=""
+CARGO_BINS=""
+for id in $(cat claimed.txt); do
+  n=$(echo "$id" | sed 's/^C//')
+  LEAN_TARGETS="$LEAN_TARGETS BarterModel.Props.$id drv_c$n"
+  CARGO_BINS="$CARGO_BINS --bin c$n"
+done
+(cd lean && lake build $LEAN_TARGETS)
+(cd harness && cargo build --offline $CARGO_BINS)
 echo setup-ok
